@@ -29,6 +29,17 @@ STRUCT = ["generic", "hermitian", "triu", "tril", "hess", "zero", "identity", "r
           "near_hermitian_2^-20", "near_hermitian_2^-30", "near_hermitian_f32", "near_triu_2^-25", "near_hess_2^-25"]
 
 
+
+def _dedupe(cases_):
+    """the same cell can be listed by two enumerations (e.g. a tall shape that the thorough bound also reaches): keep the first."""
+    seen, out_ = set(), []
+    for c in cases_:
+        if c["key"] not in seen:
+            seen.add(c["key"])
+            out_.append(c)
+    return out_
+
+
 def cases(tier, seed):
     N = 5 if tier == "quick" else 7
     rows = 1 if tier == "quick" else 3
@@ -68,7 +79,7 @@ def cases(tier, seed):
         for st in ("generic", "hermitian", "hess", "ints"):
             out.append({"key": f"{st}/n={n}/large", "grp": "struct", "st": st, "n": n, "row": 0})
         out.append({"key": f"colmask/n={n}/large", "grp": "colmask", "n": n, "mask": 0b101, "cls": "ints", "row": 0})
-    return out
+    return _dedupe(out)
 
 
 def make(case, seed):
